@@ -17,7 +17,7 @@ CLAIMED = {
          "n in 1..40 x branch factor 2..6 with identity, reversed, all rotations, all single transpositions and all permutations for n<=7 (8 thorough); every accessor of every replica's Tree is compared with the parent relation built from all replicas' Parent().",
          "Random permutations for n>8 are replaced by the stated deterministic families; bf>6 and n>40 not covered.", "§4 C17"),
  "C16": ("enum", "exhaustive enumeration of (n, view) for the stateless schemes and of (commit head, signer set, proposers, seed, query) for carousel/reputation on independent instances",
-         "Round-robin/fixed/tree-leader: n in 1..64, views 0..1024 (4096 thorough) plus 64 views around 2^32, 2^63 and 2^64-1, on every replica's own instance, incl. the bijection over any n consecutive views. Carousel: every head signer set >= quorum x last-f proposers x 3 seeds x 6 views around the activation point for n in {4,7}; reputation: all head sequences of length 2 (3 thorough), two instances compared. Carousel history independence: every sequence of <=5 (n=4) / 4 (n=7) operations {commit next block, ask view a-1 / a / a+1 around the activation view a} on one long-lived instance, each answer compared with an instance created at that moment; plus instances asked before the commit and in descending order.",
+         "Round-robin/fixed/tree-leader: n in 1..64, views 0..1024 (4096 thorough) plus 64 views around 2^32, 2^63 and 2^64-1, on every replica's own instance, incl. the bijection over any n consecutive views. Carousel: every head signer set >= quorum x last-f proposers x 3 seeds x 6 views around the activation point for n in {4,7}; reputation: all head sequences of length 2 (3 thorough), two instances compared. Carousel over time: every sequence of <=5 (n=4) / 4 (n=7) operations {commit next block, ask view a-1 / a / a+1 around the activation view a} on two long-lived instances: same answers, configured replica, and a valid candidate (signer of the head's certificate, not one of the last f proposers) whenever the carousel is active for the head committed at that moment.",
          "Carousel/reputation signer sets are structurally valid quorums (validity of the signatures is C02's subject); windows crossing the uint64 wrap are excluded.", "§4 C16"),
  "C14": ("seqmc+schedmc", "exhaustive operation-sequence enumeration on the real queue / EventLoop against a reference deque and FIFO/once/priority/deferral invariants; preemption-bounded schedule enumeration for concurrent producers",
          "Queue: every push/pop sequence of length <= 2c+4 for capacities 1..4 (6 thorough) against a drop-oldest deque. EventLoop: every operation sequence to depth 6 (7 thorough) over 16 operations (add, defer, register plain/priority/run-in-add/adding/unregistering/re-deferring handlers, unregister incl. stale double calls, tick) on capacities 64 and 2; overflow reports compared with the oldest pending events. Concurrent: 2-3 producers, the consumer in Run and a canceller under the controlled scheduler, <=2 (3) preemptions, incl. overflow at capacity 2.",
